@@ -16,3 +16,7 @@
 #include "./wasm-stdlib/libc.c"
 #include "./wasm-stdlib/stdio.c"
 #endif
+
+#ifdef TREE_SITTER_VERIF
+#include "./verif_hooks.c"
+#endif
